@@ -238,6 +238,32 @@ def check_int_edges(ctx):
                          stratum="int-edge", case=case)
 
 
+def check_helper_independence(ctx):
+    """what a helper hands out is the caller's to keep or change: a value obtained from a helper and then modified in
+    place does not change what the helper builds next (right tag, right type)"""
+    from hugr import tys, val
+
+    def tag_of(v):
+        return dump(v)["tag"]
+
+    for mk, want in ((lambda: val.bool_value(True), 1), (lambda: val.bool_value(False), 0),
+                     (lambda: val.Some(val.bool_value(True)), 1), (lambda: val.None_(tys.Bool), 0),
+                     (lambda: val.Left([val.bool_value(False)], [tys.Bool]), 0),
+                     (lambda: val.Right([tys.Bool], [val.bool_value(True)]), 1)):
+        ctx.count("monitor:helper-independence")
+        first = mk()
+        keep = (first.tag, list(getattr(first, "vals", [])))
+        try:
+            first.tag = 1 - first.tag if want in (0, 1) else first.tag      # the caller edits ITS value
+            second = mk()
+            got = tag_of(second)
+        finally:
+            first.tag = keep[0]                                           # (restore, whatever object that was)
+        if got != want:
+            ctx.disc(None, "helper-tag", "helper called again after its earlier result was edited", want, got,
+                     stratum="helper-independence", case={"helper": want})
+
+
 def check_func_root(ctx, case):
     """A function value whose body is rooted at a TailLoop (the dataflow parent whose outer signature differs from
     its body's): "a function-valued constant has the signature of its body"."""
@@ -358,6 +384,8 @@ def run(ctx):
         selftest(ctx)
         ctx.guard("int-edge", None, check_int_edges, ctx)
         ctx.case("int-edge", "edges", True)
+        ctx.guard("helper-independence", None, check_helper_independence, ctx)
+        ctx.case("helper-independence", "helpers", True)
     from vf.gen.prog import gen_program
 
     for i in ctx.mine(ctx.n(200, 20000)):
@@ -416,6 +444,8 @@ def replay(ctx, rec):
         check_func_root(ctx, rec["case"])
     elif rec.get("stratum") == "int-edge":
         check_int_edges(ctx)
+    elif rec.get("stratum") == "helper-independence":
+        check_helper_independence(ctx)
     elif rec.get("stratum") == "const-replaced":
         check_const_replaced(ctx, rec["case"])
     else:
